@@ -4,5 +4,8 @@ go 1.23
 
 require (
 	github.com/anishathalye/porcupine v1.3.0
+	golang.org/x/tools v0.16.0
 	pgregory.net/rapid v1.3.0
 )
+
+require golang.org/x/mod v0.14.0 // indirect
